@@ -18,6 +18,7 @@ type Clause struct {
 	E     Expr
 	File  string
 	Line  int
+	Pkg   string
 }
 
 type LoopSpec struct {
@@ -294,6 +295,7 @@ func ParseContractFile(path, pkgPath string) (*ContractFile, error) {
 			if err != nil {
 				return nil, err
 			}
+			c.Pkg = cf.PkgPath
 			cf.PkgInvs = append(cf.PkgInvs, c)
 		case "immutable":
 			if curT == nil {
